@@ -46,6 +46,12 @@ def kw0():
     return {"decade": 0, "year": 0, "month": 0, "week": 0, "day": 0, "hour": [0, 1], "minute": [0, 1], "second": [0, 1]}
 
 
+def kw_day1():
+    k = kw0()
+    k["day"] = 1
+    return k
+
+
 def setkw(kw, u, num, den=1):
     if u in ("hour", "minute", "second"):
         kw[u] = [num, den]
@@ -152,6 +158,13 @@ def make_cases(ctx):
             rtap = rng.random() < 0.5
             add("c04", "%d %s ago at %02d:%02d" % (n, word(u, n, rng), h, mi), b, kw, "ago", rng.choice(PDF), [h, mi, 0, 0], [u],
                 [{"u": u, "num": n, "den": 1}], rtap=rtap)
+            sec_ = rng.randint(0, 59)
+            us_ = rng.choice([500000, 250000, 999999, 1000, 120000])
+            fr_ = ("%06d" % us_).rstrip("0")
+            add("c04", rng.choice(["%d %s ago at %02d:%02d:%02d.%s", "%d %s ago %02d:%02d:%02d.%s"]) % (n, word(u, n, rng), h, mi, sec_, fr_), b, dict(kw), "ago",
+                rng.choice(PDF), [h, mi, sec_, us_], [u], [{"u": u, "num": n, "den": 1}], rtap=not rtap)
+            add("c04", "yesterday at %d:%02d:%02d.%s" % (h, mi, sec_, fr_), b, kw_day1(), "ago", rng.choice(PDF), [h, mi, sec_, us_], ["day"],
+                [{"u": "day", "num": 1, "den": 1}])
             # several units AND a clock time in one phrase ("1 year, 2 months ago at 2pm"): the families above vary them
             # one at a time
             for _ in range(2 if ctx.quick() else 6):
@@ -162,6 +175,13 @@ def make_cases(ctx):
                 parts = ["%d %s" % (n_, word(UNITS[i], n_, rng)) for i, n_ in zip(us, ns)]
                 h, mi = rng.choice([(0, 0), (14, 5), (23, 59), (9, 30), (2, 0)])
                 clock = rng.choice(["at %02d:%02d" % (h, mi), "%d:%02d" % (h, mi), "at %d:%02d %s" % (h % 12 or 12, mi, "am" if h < 12 else "pm")])
+                sec_, us_ = 0, 0
+                if rng.random() < 0.4:          # seconds and fractions of a second are part of "an explicit clock time"
+                    sec_ = rng.randint(0, 59)
+                    digits = rng.choice([0, 1, 3, 6])
+                    us_ = 0 if digits == 0 else rng.randint(1, 10 ** digits - 1) * 10 ** (6 - digits)
+                    frac = "" if digits == 0 else ".%0*d" % (digits, us_ // 10 ** (6 - digits))
+                    clock = rng.choice(["at %02d:%02d:%02d%s" % (h, mi, sec_, frac), "%d:%02d:%02d%s %s" % (h % 12 or 12, mi, sec_, frac, "am" if h < 12 else "pm")])
                 if dir_ == "ago":
                     s = rng.choice([", ".join(parts), " and ".join(parts), " ".join(parts)]) + " ago " + clock
                 else:
@@ -169,7 +189,7 @@ def make_cases(ctx):
                 kw = kw0()
                 for i, n_ in zip(us, ns):
                     setkw(kw, UNITS[i], n_)
-                add("c04", s, b, kw, dir_, rng.choice(PDF), [h, mi, 0, 0], [UNITS[i] for i in us],
+                add("c04", s, b, kw, dir_, rng.choice(PDF), [h, mi, sec_, us_], [UNITS[i] for i in us],
                     [{"u": UNITS[i], "num": n_, "den": 1} for i, n_ in zip(us, ns)], rtap=rng.random() < 0.4)
     # the ends of the representable range: results landing exactly in year 1 / year 9999, and one step beyond (None)
     for by in (1809, 1999, 2019, 2199, 1800, 2200, 2000):
